@@ -30,6 +30,8 @@ impl Default for Bytes {
 }
 pub assume_specification<T: Clone> [<[T] as std::borrow::ToOwned>::to_owned] (s: &[T]) -> (r: std::vec::Vec<T>)
     ensures r@ == s@;
+pub assume_specification<T: core::default::Default> [core::mem::take::<T>] (b: &mut T) -> (r: T)
+    ensures r == *old(b), call_ensures(T::default, (), *final(b));
 pub assume_specification [<usize as core::convert::From<bool>>::from] (b: bool) -> (r: usize)
     ensures r == (if b { 1usize } else { 0usize });
 
@@ -82,10 +84,13 @@ impl vstd::std_specs::cmp::PartialEqSpecImpl for SendState { open spec fn obeys_
 pub trait BytesSource {
     spec fn remaining(&self) -> Seq<u8>;
     spec fn chunk_budget(&self) -> nat;
+    /// representation invariant of the source (BytesArray: the cursor is inside the chunk array)
+    spec fn src_wf(&self) -> bool;
 //@ extract quinn-proto/src/connection/streams/send.rs :: trait BytesSource::fn pop_chunk
 //@ ret r
 //@ contract
-        ensures r.0@.len() <= limit,
+        requires old(self).src_wf(),
+        ensures final(self).src_wf(), r.0@.len() <= limit,
             r.1 + final(self).chunk_budget() <= old(self).chunk_budget(),
             old(self).remaining() =~= r.0@ + final(self).remaining(),
             r.0@.len() == 0 ==> (limit == 0 || final(self).remaining().len() == 0)
@@ -98,7 +103,59 @@ pub trait BytesSource {
 impl BytesSource for ByteSlice<'_> {
     open spec fn remaining(&self) -> Seq<u8> { self.data@ }
     open spec fn chunk_budget(&self) -> nat { if self.data@.len() > 0 { 1 } else { 0 } }
+    open spec fn src_wf(&self) -> bool { true }
 //@ extract quinn-proto/src/connection/streams/send.rs :: impl BytesSource for ByteSlice<'_>::fn pop_chunk
+//@ end
+}
+
+//@ extract quinn-proto/src/connection/streams/send.rs :: struct BytesArray
+//@ end
+pub open spec fn concat_bytes(s: Seq<Bytes>) -> Seq<u8> decreases s.len() {
+    if s.len() == 0 { Seq::empty() } else { s[0]@ + concat_bytes(s.skip(1)) }
+}
+pub proof fn lemma_concat_step(s: Seq<Bytes>, i: int)
+    requires 0 <= i < s.len()
+    ensures concat_bytes(s.skip(i)) =~= s[i]@ + concat_bytes(s.skip(i + 1))
+{ assert(s.skip(i).skip(1) =~= s.skip(i + 1)); assert(s.skip(i)[0] == s[i]); }
+pub proof fn lemma_concat_empty(s: Seq<Bytes>, i: int)
+    requires i == s.len()
+    ensures concat_bytes(s.skip(i)) =~= Seq::<u8>::empty()
+{ assert(s.skip(i) =~= Seq::<Bytes>::empty()); }
+impl BytesSource for BytesArray<'_> {
+    /// what is left: the unconsumed chunks, concatenated
+    open spec fn remaining(&self) -> Seq<u8> { concat_bytes(self.chunks@.skip(self.consumed as int)) }
+    open spec fn chunk_budget(&self) -> nat { (self.chunks@.len() - self.consumed) as nat }
+    open spec fn src_wf(&self) -> bool { self.consumed <= self.chunks@.len() }
+//@ extract quinn-proto/src/connection/streams/send.rs :: impl BytesSource for BytesArray<'_>::fn pop_chunk
+//@ at-start
+        let ghost rem0 = self.remaining();
+        let ghost c0 = self.consumed;
+//@ loop 0
+            invariant_except_break
+                concat_bytes(self.chunks@.skip(self.consumed as int)) =~= rem0,
+            invariant
+                c0 <= self.consumed <= self.chunks@.len(), self.chunks@.len() == old(self).chunks@.len(),
+                chunks_consumed == self.consumed - c0,
+                rem0 == old(self).remaining(), c0 == old(self).consumed,
+            ensures
+                self.remaining() =~= rem0,
+                limit == 0 || self.remaining().len() == 0,
+            decreases self.chunks@.len() - self.consumed
+//@ loop-start 0
+            proof { lemma_concat_step(self.chunks@, self.consumed as int); }
+            let ghost before = self.chunks@;
+//@ after let chunk = std::mem::take(chunk);
+                proof {
+                    assert(self.chunks@.skip(self.consumed as int + 1) =~= before.skip(self.consumed as int + 1));
+                }
+//@ before break;
+                proof { assert(self.chunks@ =~= before); }
+//@ after let chunk = chunk.split_to(limit);
+                proof {
+                    lemma_concat_step(self.chunks@, self.consumed as int);
+                    assert(self.chunks@.skip(self.consumed as int + 1) =~= before.skip(self.consumed as int + 1));
+                    assert(chunk@ + self.chunks@[self.consumed as int]@ =~= before[self.consumed as int]@);
+                }
 //@ end
 }
 
@@ -137,8 +194,9 @@ impl Send {
             old(self).pending.wf(),
             old(self).pending.offset_spec() <= old(self).max_data,
             old(source).chunk_budget() <= usize::MAX,
+            old(source).src_wf(),
         ensures
-            final(self).pending.wf(),
+            final(self).pending.wf(), final(source).src_wf(),
             final(self).max_data == old(self).max_data,
             final(self).state == old(self).state,
             final(self).stop_reason == old(self).stop_reason,
@@ -171,7 +229,7 @@ impl Send {
                 self.pending.written() =~= old(self).pending.written() + old(source).remaining().take(result.bytes as int),
                 old(source).remaining() =~= old(source).remaining().take(result.bytes as int) + source.remaining(),
                 result.chunks + source.chunk_budget() <= old(source).chunk_budget(),
-                old(source).chunk_budget() <= usize::MAX,
+                old(source).chunk_budget() <= usize::MAX, source.src_wf(),
             decreases limit
 //@ end
 //@ extract quinn-proto/src/connection/streams/send.rs :: impl Send::fn reset
